@@ -787,7 +787,7 @@ func (v *FnVC) effectClass(name string, fn *ssa.Function, c *ssa.CallCommon) int
 		}
 	}
 	if c.IsInvoke() {
-		if n, ok := c.Value.Type().(*types.Named); ok {
+		if n, ok := types.Unalias(c.Value.Type()).(*types.Named); ok {
 			if n.Obj().Pkg() == nil || !inModule(n.Obj().Pkg().Path()) {
 				// method of an external interface (error, io.Reader, context.Context ...): dynamic receiver may be module code,
 				// but such methods (Error, Read, Done ...) are assumed not to touch tracked state
